@@ -265,4 +265,8 @@ def run(ck):
     decoders.check_rejections(ck, P, "ATOM/rejection", only_names={"trailer-check", "trailer-isize", "gzip-hcrc"})
     extend_siblings(ck, P)
     wrap_who(ck, P)
+    # the trailer arms hand over to Done/Bad only after their last input request
+    from . import c04
+    n = c04.handover_after_suspension(ck, P, arms={"Check", "Length"})
+    ck.floor("PAIR/handover-after-suspension:trailer", n, 3)
     ck.assumptions += ["rustc MIR", "arm regions = blocks dominated by the mode switch targets", "host target; K1"]
